@@ -15,6 +15,8 @@ enum Hold {
 }
 
 static HELD_AT_END: AtomicBool = AtomicBool::new(false);
+static PANICKING: AtomicBool = AtomicBool::new(false);
+static UNPOISONED_AFTER_PANIC: AtomicBool = AtomicBool::new(false);
 
 /// P panics (or is cancelled) with a typed payload, optionally while holding a guard; a bystander and a later
 /// locker run alongside; afterwards a fresh coroutine reuses the recycled stack (pool capacity 1)
@@ -43,6 +45,8 @@ fn panic_iso(e: &'static Engine, workers: usize, yield_before: bool, hold: Hold,
             }
         } else {
             coroutine::yield_now();
+            // set while the guard is still held: whoever gets the lock afterwards got it from the panic unwind
+            PANICKING.store(true, Ordering::SeqCst);
             std::panic::panic_any(77u32);
         }
     });
@@ -56,11 +60,21 @@ fn panic_iso(e: &'static Engine, workers: usize, yield_before: bool, hold: Hold,
     let l = go!(move || match hold {
         Hold::Nothing => 0u32,
         Hold::Mutex => match m2.lock() {
-            Ok(_) => 1,
+            Ok(_g) => {
+                if PANICKING.load(Ordering::SeqCst) {
+                    UNPOISONED_AFTER_PANIC.store(true, Ordering::SeqCst);
+                }
+                1
+            }
             Err(_) => 2,
         },
         Hold::RwWrite => match rw2.read() {
-            Ok(_) => 1,
+            Ok(_g) => {
+                if PANICKING.load(Ordering::SeqCst) {
+                    UNPOISONED_AFTER_PANIC.store(true, Ordering::SeqCst);
+                }
+                1
+            }
             Err(_) => 2,
         },
     });
@@ -88,6 +102,9 @@ fn panic_iso(e: &'static Engine, workers: usize, yield_before: bool, hold: Hold,
         Ok(v) => v,
         Err(_) => e.fail("bystander", "the locker coroutine panicked"),
     };
+    if UNPOISONED_AFTER_PANIC.load(Ordering::SeqCst) {
+        e.fail("poison_visible_on_release", "a locker got the lock from the guard dropped by the panic and saw it unpoisoned (Ok)");
+    }
     // a later spawn on every worker, reusing the recycled stack
     for i in 0..workers + 1 {
         let h = go!(move || {
